@@ -29,6 +29,7 @@ import os
 import numpy as np
 
 from harness import common as K
+from symx import core, npproxy
 from symx.core import Sym
 
 META = {
@@ -49,7 +50,7 @@ META = {
     "equal to the eigh-based truncated pseudo-inverse oracle, Mahalanobis non-negative / zero at the mean / sparse = "
     "dense / batched = singles, all within a float tolerance. (bsr_model) the BSR model against scipy on concrete "
     "blocks for hand-written index arrays incl. duplicates, empty rows and unsorted columns.",
-    "bounds": ["graphs: 2-4 vertices (catalogue GRAPHS in harness/c12.py, 21 graphs)",
+    "bounds": ["graphs: 2-4 vertices (catalogue GRAPHS in harness/c12.py, 22 graphs)",
                "features per vertex: 1 (all graphs), 2 (graphs on <= 3 vertices; concatenation with 2 features: 5 samples "
                "of which 1-2 rows symbolic, the rest exact constants)",
                "samples: n = 3 or 4 fully symbolic rows in [-4,4] (k=1), queries in [-4,4]",
@@ -63,7 +64,7 @@ META = {
                     "PSD by decomposition relies on: a finite sum of non-negative reals is non-negative"],
     "not_covered": ["float32 rounding and n_components truncation on SYMBOLIC data (SVD of a symbolic covariance): both are "
                     "covered on concrete data only (harness `dtype`)",
-                    "principal_components_analysis (eigsh of the precision)", "increment() / incremental=True",
+                    "principal_components_analysis (eigsh of the precision)", "GMRFModel.increment (Vectorizable samples); repeated increments",
                     "graphs on more than 4 vertices, more than 2 features per vertex",
                     "directed graphs WITH antiparallel edge pairs (excluded by the property: dense overwrites, sparse adds)"],
     "trusted": ["oracle (own covariance, adjugate inverse, scatter) in harness/c12.py",
@@ -89,6 +90,7 @@ GRAPHS = {
     "star4": ("U", 4, [(2, 0), (2, 1), (2, 3)], None),
     "iso4": ("U", 4, [(1, 3)], None),
     "iso4b": ("U", 4, [(3, 1), (1, 2)], None),
+    "iso4c": ("U", 4, [(0, 1)], None),
     "d2": ("D", 2, [(1, 0)], None),
     "d3": ("D", 3, [(0, 1), (2, 1), (0, 2)], None),
     "d4": ("D", 4, [(3, 0), (1, 0), (1, 2)], None),
@@ -125,8 +127,8 @@ def _mk_graph(name):
 # ====================================================================== instances
 def _selftest_instances():
     return [("precision", {"graph": "u3_01_12", "mode": "concatenation", "bias": 0, "n": 3, "k": 1, "selftest_mutant": "dense_offdiag_sign"}),
-            ("precision", {"graph": "chain4", "mode": "subtraction", "bias": 0, "n": 3, "k": 1, "devfix": True, "selftest_mutant": "dense_diag_overwrite"}),
-            ("precision", {"graph": "iso4", "mode": "concatenation", "bias": 0, "n": 3, "k": 1, "selftest_mutant": "indptr"}),
+            ("precision", {"graph": "chain4", "mode": "subtraction", "bias": 0, "n": 3, "k": 1, "selftest_mutant": "dense_diag_overwrite"}),
+            ("precision", {"graph": "iso4c", "mode": "concatenation", "bias": 0, "n": 3, "k": 1, "selftest_mutant": "indptr"}),
             ("precision", {"graph": "k2", "mode": "concatenation", "bias": 1, "n": 3, "k": 1, "selftest_mutant": "bias"}),
             ("precision", {"graph": "d3", "mode": "concatenation", "bias": 0, "n": 3, "k": 1, "selftest_mutant": "sparse_swap"}),
             ("precision", {"graph": "e3", "mode": "concatenation", "bias": 0, "n": 3, "k": 2, "selftest_mutant": "diag_shift"}),
@@ -135,77 +137,85 @@ def _selftest_instances():
             ("mahalanobis", {"graph": "k2", "mode": "concatenation", "bias": 0, "n": 3, "k": 1, "selftest_mutant": "maha_sparse_T"}),
             ("psd", {"graph": "k2", "mode": "concatenation", "bias": 0, "n": 3, "k": 1, "route": "direct", "sparse": False, "selftest_mutant": "dense_offdiag_double"}),
             ("psd", {"graph": "u3_01_12", "mode": "concatenation", "bias": 0, "n": 3, "k": 1, "route": "split", "sparse": False, "selftest_mutant": "dense_offdiag_double"}),
-            ("dtype", {"graph": "u3_01_12", "mode": "concatenation", "bias": 0, "k": 2, "dtype": "float32", "ncomp": None, "selftest_mutant": "sparse_swap"}),
-            ("dtype", {"graph": "k2", "mode": "concatenation", "bias": 0, "k": 2, "dtype": "float64", "ncomp": 2, "selftest_mutant": "svd_no_invert"})]
+            ("increment", {"graph": "u3_01_12", "mode": "subtraction", "bias": 0, "n": 3, "n_new": 1, "k": 1, "selftest_mutant": "inc_norm"}),
+            ("increment", {"graph": "e3", "mode": "concatenation", "bias": 1, "n": 3, "n_new": 2, "k": 1, "selftest_mutant": "inc_mean"}),
+            ("dtype", {"graph": "u3_01_12", "mode": "concatenation", "dtype": "float32", "ks": [2], "seeds": 2, "selftest_mutant": "sparse_swap"}),
+            ("dtype", {"graph": "k2", "mode": "concatenation", "dtype": "float64", "ks": [2], "seeds": 2, "selftest_mutant": "svd_no_invert"})]
 
 
 def instances(tier):
+    """bias (and, in `psd`, the storage) are forked inside an instance (F.choice / F.bool) unless fixed by the cfg"""
     if os.environ.get("C12_SELFTEST"):
         return _selftest_instances()
     quick = tier == "quick"
     out = []
     modes = ("concatenation", "subtraction")
+
+    def gm(names):
+        for g in names:
+            for mode in (modes if GRAPHS[g][2] else ("concatenation",)):
+                yield g, mode
+
     # ---- precision, 1 feature per vertex, fully symbolic data
-    for g in GRAPHS:
-        edgeless = not GRAPHS[g][2]
-        for mode in (modes if not edgeless else ("concatenation",)):
-            for bias in (0, 1):
-                for n in (3, 4):
-                    if quick and n == 4 and g not in ("k2", "tri", "iso4", "d3", "e3"):
-                        continue
-                    out.append(("precision", {"graph": g, "mode": mode, "bias": bias, "n": n, "k": 1}))
+    for g, mode in gm(GRAPHS):
+        out.append(("precision", {"graph": g, "mode": mode, "n": 3, "k": 1}))
+        if not quick or g in ("k2", "tri", "iso4", "d3", "e3"):
+            out.append(("precision", {"graph": g, "mode": mode, "n": 4, "k": 1}))
     # ---- precision, 2 features per vertex
-    for g in ("e2", "k2", "e3", "u3_01_12", "d2") if quick else ("e2", "k2", "e3", "u3_01", "u3_01_12", "tri", "d2", "d3", "tree3r"):
-        edgeless = not GRAPHS[g][2]
-        for bias in (0, 1):
-            if edgeless:
-                out.append(("precision", {"graph": g, "mode": "concatenation", "bias": bias, "n": 3, "k": 2}))
-                continue
-            out.append(("precision", {"graph": g, "mode": "subtraction", "bias": bias, "n": 3, "k": 2}))
-            if not quick:
-                out.append(("precision", {"graph": g, "mode": "subtraction", "bias": bias, "n": 4, "k": 2}))
-            out.append(("precision", {"graph": g, "mode": "concatenation", "bias": bias, "n": 5, "k": 2, "sym_rows": 1}))
-            if not quick and GRAPHS[g][1] == 2:
-                out.append(("precision", {"graph": g, "mode": "concatenation", "bias": bias, "n": 5, "k": 2, "sym_rows": 2}))
+    for g in ("e2", "k2", "e3", "d2") if quick else ("e2", "k2", "e3", "u3_01", "u3_01_12", "tri", "d2", "d3", "tree3r"):
+        if not GRAPHS[g][2]:
+            out.append(("precision", {"graph": g, "mode": "concatenation", "n": 3, "k": 2}))
+            continue
+        out.append(("precision", {"graph": g, "mode": "subtraction", "n": 3, "k": 2}))
+        if not quick and len(GRAPHS[g][2]) == 1:
+            out.append(("precision", {"graph": g, "mode": "subtraction", "n": 4, "k": 2}))
+        out.append(("precision", {"graph": g, "mode": "concatenation", "n": 5, "k": 2, "sym_rows": 1}))
+        if not quick and GRAPHS[g][1] == 2:
+            out.append(("precision", {"graph": g, "mode": "concatenation", "n": 5, "k": 2, "sym_rows": 2}))
+    # ---- incremental update
+    for g, mode in gm(("k2", "e3", "u3_01_12", "iso4c", "d3") if quick else tuple(GRAPHS)):
+        out.append(("increment", {"graph": g, "mode": mode, "n": 3, "n_new": 1, "k": 1}))
+        if not quick or g in ("k2", "e3"):
+            out.append(("increment", {"graph": g, "mode": mode, "n": 3, "n_new": 2, "k": 1, "as_list": True}))
+    out.append(("increment", {"graph": "k2", "mode": "subtraction", "n": 3, "n_new": 1, "k": 2}))
+    out.append(("increment", {"graph": "e2", "mode": "concatenation", "n": 3, "n_new": 2, "k": 2}))
     # ---- Mahalanobis identities
-    mg = ("k2", "e3", "u3_01_12", "tri", "iso4", "d3", "tree4") if quick else tuple(GRAPHS)
-    for g in mg:
-        edgeless = not GRAPHS[g][2]
-        for mode in (modes if not edgeless else ("concatenation",)):
-            for bias in ((0,) if quick else (0, 1)):
-                out.append(("mahalanobis", {"graph": g, "mode": mode, "bias": bias, "n": 3, "k": 1}))
+    mg = ("k2", "e3", "u3_01_12", "tri", "iso4", "iso4c", "d3", "tree4") if quick else tuple(GRAPHS)
+    for g, mode in gm(mg):
+        for bias in ((0,) if quick else (0, 1)):
+            out.append(("mahalanobis", {"graph": g, "mode": mode, "bias": bias, "n": 3, "k": 1}))
     for g in ("k2", "e2") if quick else ("k2", "e2", "u3_01_12", "e3"):
         out.append(("mahalanobis", {"graph": g, "mode": "subtraction" if GRAPHS[g][2] else "concatenation", "bias": 0, "n": 3, "k": 2}))
-    # ---- PSD
-    for g in mg:
-        edgeless = not GRAPHS[g][2]
-        for mode in (modes if not edgeless else ("concatenation",)):
-            for sparse in (False, True):
-                out.append(("psd", {"graph": g, "mode": mode, "bias": 0, "n": 3, "k": 1, "route": "split", "sparse": sparse}))
-    for g in ("k2", "e2", "u3_01", "iso4", "d2"):
-        edgeless = not GRAPHS[g][2]
-        for mode in (modes if not edgeless else ("concatenation",)):
-            for bias in (0, 1):
-                out.append(("psd", {"graph": g, "mode": mode, "bias": bias, "n": 3, "k": 1, "route": "direct", "sparse": bias == 1}))
+    out.append(("mahalanobis", {"graph": "k2", "mode": "concatenation", "bias": 1, "n": 3, "k": 1, "native_inv": True}))
+    for i, (g, mode) in enumerate(gm(mg)):
+        for sparse in (False, True):
+            out.append(("mahalanobis_sqrt", {"graph": g, "mode": mode, "bias": (i + sparse) % 2, "n": 4, "k": 1, "sparse": sparse}))
+    out.append(("mahalanobis_sqrt", {"graph": "u3_01_12", "mode": "concatenation", "bias": 0, "n": 6, "k": 2, "sparse": True}))
+    out.append(("mahalanobis_sqrt", {"graph": "k2", "mode": "subtraction", "bias": 1, "n": 5, "k": 2, "sparse": False}))
+    # ---- PSD (bias and storage fixed per instance: an integer/boolean fork variable in the path condition
+    #      takes the queries out of z3's pure nonlinear-real fragment and they stop being decided)
+    for i, (g, mode) in enumerate(gm(mg)):
+        for sparse in (False, True):
+            out.append(("psd", {"graph": g, "mode": mode, "bias": 0 if quick else (i + sparse) % 2, "n": 3, "k": 1, "route": "split", "sparse": sparse}))
+    for g, mode in gm(("k2", "e2", "u3_01", "iso4", "d2")):
+        for bias in (0, 1):
+            out.append(("psd", {"graph": g, "mode": mode, "bias": bias, "n": 3, "k": 1, "route": "direct", "sparse": bias == 1}))
+            if not quick:
+                out.append(("psd", {"graph": g, "mode": mode, "bias": bias, "n": 3, "k": 1, "route": "direct", "sparse": bias == 0}))
     out.append(("psd", {"graph": "k2", "mode": "subtraction", "bias": 0, "n": 3, "k": 2, "route": "split", "sparse": True}))
     out.append(("psd", {"graph": "e2", "mode": "concatenation", "bias": 0, "n": 3, "k": 2, "route": "split", "sparse": False}))
+    if not quick:
+        out.append(("psd", {"graph": "k2", "mode": "subtraction", "bias": 1, "n": 3, "k": 2, "route": "split", "sparse": False}))
+        out.append(("psd", {"graph": "e3", "mode": "concatenation", "bias": 1, "n": 3, "k": 2, "route": "split", "sparse": True}))
     # ---- GMRFModel on PointClouds
     out.append(("vectorizable", {"graph": "k2", "mode": "subtraction", "bias": 0, "n": 3}))
     out.append(("vectorizable", {"graph": "e2", "mode": "concatenation", "bias": 1, "n": 3}))
     if not quick:
         out.append(("vectorizable", {"graph": "u3_01_12", "mode": "subtraction", "bias": 0, "n": 3}))
     # ---- float32 / float64 / rank truncation on concrete data (real LAPACK and scipy)
-    for g in ("k2", "e3", "u3_01_12", "iso4", "d3", "tree4") if quick else tuple(GRAPHS):
-        edgeless = not GRAPHS[g][2]
-        for mode in (modes if not edgeless else ("concatenation",)):
-            for k in (1, 2, 3):
-                for dt in ("float32", "float64"):
-                    blockdim = k if (edgeless or mode == "subtraction") else 2 * k
-                    ncs = [None] + [c for c in (1, 2, blockdim, blockdim + 2) if c <= blockdim + 2]
-                    for nc in sorted(set(ncs), key=lambda v: -1 if v is None else v):
-                        if quick and nc not in (None, 1, blockdim):
-                            continue
-                        out.append(("dtype", {"graph": g, "mode": mode, "bias": (k + (nc or 0)) % 2, "k": k, "dtype": dt, "ncomp": nc}))
+    for g, mode in gm(("k2", "e3", "u3_01_12", "iso4", "iso4c", "d3", "tree4") if quick else tuple(GRAPHS)):
+        for dt in ("float32", "float64"):
+            out.append(("dtype", {"graph": g, "mode": mode, "dtype": dt, "ks": [1, 2] if quick else [1, 2, 3], "seeds": 3 if quick else 6}))
     out.append(("bsr_model", {}))
     return out
 
@@ -305,21 +315,75 @@ def _atleast_2d(c):
     return c
 
 
-def _bsr_validated(F, ob):
+def _bsr_validated(F, ob, expected=True):
     if F.sym:
         ob.true("bsr_model.validated", all(ok for ok, _ in BSRModel.checks))
-        ob.true("bsr_model.used", len(BSRModel.checks) > 0)
+        ob.true("bsr_model.used", (len(BSRModel.checks) > 0) == bool(expected))
+
+
+# ====================================================================== reciprocal-variable model of inv
+class Recip:
+    """1/p for a polynomial p as ONE named solver variable t with the side condition t*p = 1.
+
+    The engine's own `inv` returns adjugate/det as fractions; adding entries of different blocks then multiplies the
+    denominators (det_1 * det_2 * ...) without ever cancelling, and the quadratic form x^T P x of a graph with more
+    than one block explodes.  With t_e standing for 1/det(C_e) every entry of the precision is a POLYNOMIAL in the
+    data and the t_e, and the Mahalanobis identities are recognised as polynomial identities.  The same table is
+    used by the model of numpy.linalg.inv and by the harness oracle (looked up by the canonical determinant
+    polynomial), so both speak about the same t_e.  Only the Mahalanobis harnesses use it; `precision` runs on the
+    engine's plain fraction inverse."""
+
+    def __init__(self):
+        self.table = []  # (numerator Poly, denominator Poly | None, Sym t)
+
+    def __call__(self, d):
+        if not isinstance(d, Sym):
+            return 1 / d
+        if d.is_const():
+            return 1 / d
+        for (n0, d0, t) in self.table:
+            if n0 == d.n and ((d0 is None and d.d is None) or (d0 is not None and d.d is not None and d0 == d.d)):
+                return t
+        c = core.ctx()
+        v = c.fresh_real("rdet")
+        if d.d is None:
+            c.defined.append(v * d.n.z3() == 1)
+        else:
+            c.defined.append(v * d.n.z3() == d.d.z3())
+        t = Sym.var(v)
+        self.table.append((d.n, d.d, t))
+        return t
+
+    def inv(self, a):
+        """model of numpy.linalg.inv: adjugate times the reciprocal variable of the determinant"""
+        if not core.has_sym(a):
+            r = np.linalg.inv(npproxy._defloat(a))
+            return npproxy._reobject(r) if npproxy._was_object((a,)) else r
+        a = core.O(a)
+        if a.ndim != 2 or a.shape[0] != a.shape[1]:
+            raise np.linalg.LinAlgError("Last 2 dimensions of the array must be square")
+        return _adjugate_inverse(a, self)
+
+
+def _use_recip(F, cfg):
+    """symbolic mode only: numpy.linalg.inv (as seen by menpo) becomes the reciprocal-variable model"""
+    if not F.sym or cfg.get("native_inv"):
+        return None
+    rc = Recip()
+    F.patch(npproxy.NP.linalg, "inv", rc.inv)
+    return rc
 
 
 # ====================================================================== developer mutants
-def _rewrite(F, owner, name, old, new, count=1):
-    """patch `owner.name` with its own source after one textual replacement (plausible one-line bugs)"""
+def _rewrite(F, owner, name, *pairs):
+    """patch `owner.name` with its own source after textual replacements (old, new, old, new, ...): plausible one-line bugs"""
     import textwrap
 
     fn = getattr(owner, name)
     src = textwrap.dedent(inspect.getsource(fn))
-    assert src.count(old) >= 1, (name, old)
-    src = src.replace(old, new, count)
+    for old, new in zip(pairs[0::2], pairs[1::2]):
+        assert src.count(old) >= 1, (name, old)
+        src = src.replace(old, new, 1)
     glob = fn.__globals__
     ns = {}
     exec(compile(src, "<c12 mutant %s>" % name, "exec"), glob, ns)
@@ -334,12 +398,12 @@ def _mutate(F, m):
                  "precision[v2_from:v2_to, v1_from:v1_to] = -covmat[")
     elif m == "dense_offdiag_double":
         _rewrite(F, G, "_create_dense_precision", "precision[v1_from:v1_to, v2_from:v2_to] = covmat[",
-                 "precision[v1_from:v1_to, v2_from:v2_to] = 3 * covmat[")
-        _rewrite(F, G, "_create_dense_precision", "precision[v2_from:v2_to, v1_from:v1_to] = covmat[",
+                 "precision[v1_from:v1_to, v2_from:v2_to] = 3 * covmat[",
+                 "precision[v2_from:v2_to, v1_from:v1_to] = covmat[",
                  "precision[v2_from:v2_to, v1_from:v1_to] = 3 * covmat[")
         _rewrite(F, G, "_create_sparse_precision", "all_blocks[count] = covmat[:n_features_per_vertex, n_features_per_vertex::]",
-                 "all_blocks[count] = 3 * covmat[:n_features_per_vertex, n_features_per_vertex::]")
-        _rewrite(F, G, "_create_sparse_precision", "all_blocks[count] = covmat[n_features_per_vertex::, :n_features_per_vertex]",
+                 "all_blocks[count] = 3 * covmat[:n_features_per_vertex, n_features_per_vertex::]",
+                 "all_blocks[count] = covmat[n_features_per_vertex::, :n_features_per_vertex]",
                  "all_blocks[count] = 3 * covmat[n_features_per_vertex::, :n_features_per_vertex]")
     elif m == "dense_diag_overwrite":
         _rewrite(F, G, "_create_dense_precision", "precision[v1_from:v1_to, v1_from:v1_to] += covmat\n",
@@ -361,6 +425,10 @@ def _mutate(F, m):
         _rewrite(F, G.GMRFVectorModel, "_mahalanobis_distance", "if subtract_mean:", "if subtract_mean and not self.sparse:")
     elif m == "maha_sparse_T":
         _rewrite(F, G.GMRFVectorModel, "_mahalanobis_distance", "d = np.diag(d)", "d = d[0]")
+    elif m == "inc_norm":
+        _rewrite(F, G, "_increment_multivariate_gaussian_cov", "k = n - 1", "k = n")
+    elif m == "inc_mean":
+        _rewrite(F, G.GMRFVectorModel, "_increment", "self.n_samples += data.shape[0]", "self.n_samples += 1")
     elif m == "svd_no_invert":
         _rewrite(F, G, "_covariance_matrix_inverse", "np.diag(1 / v)", "np.diag(v)")
     else:
@@ -383,19 +451,23 @@ def _own_cov(Z, bias):
     return C
 
 
-def _own_inv(C):
-    """adjugate inverse"""
+def _adjugate_inverse(C, recip=None):
+    """adjugate times 1/det (1/det through `recip` when given)"""
     p = C.shape[0]
     d = K.det(C)
+    r = recip(d) if recip is not None else 1 / d
     out = np.empty((p, p), dtype=C.dtype)
     if p == 1:
-        out[0, 0] = 1 / d
+        out[0, 0] = r
         return out
     for i in range(p):
         for j in range(p):
             minor = np.delete(np.delete(C, j, 0), i, 1)
-            out[i, j] = ((-1) ** (i + j)) * K.det(minor) / d
+            out[i, j] = ((-1) ** (i + j)) * K.det(minor) * r
     return out
+
+
+_own_inv = _adjugate_inverse
 
 
 def _selectors(V, k, edges, mode):
@@ -422,8 +494,8 @@ def _apply_sel(rows, M):
     return out
 
 
-def _oracle(F, X, V, k, edges, mode, bias, assume=True):
-    """-> (P, [(rows_e, Cinv_e)], mean): P = sum_e E_e^T inv(cov(E_e X)) E_e"""
+def _oracle(F, X, V, k, edges, mode, bias, assume=True, recip=None):
+    """-> (P, [(rows_e, Cinv_e, C_e)], mean): P = sum_e E_e^T inv(cov(E_e X)) E_e"""
     N = V * k
     P = K.zeros(F, (N, N))
     parts = []
@@ -432,7 +504,7 @@ def _oracle(F, X, V, k, edges, mode, bias, assume=True):
         C = _own_cov(Z, bias)
         if assume:
             _well_conditioned(F, C)
-        Ci = _own_inv(C)
+        Ci = _own_inv(C, recip)
         parts.append((rows, Ci, C))
         for a, ra in enumerate(rows):
             for b, rb in enumerate(rows):
@@ -448,6 +520,14 @@ def _well_conditioned(F, C):
     """positive definite with a margin: every leading principal minor >= MARGIN"""
     for r in range(1, C.shape[0] + 1):
         F.assume(K.det(C[:r, :r]) >= MARGIN)
+
+
+def _recip_is_inverse(ob, rc, parts):
+    """the blocks written with reciprocal variables are the plain inverses (t_e * det_e = 1)"""
+    if rc is None:
+        return
+    for e, (rows, Ci, C) in enumerate(parts):
+        ob.eq("block[%d].reciprocal_model=inverse" % e, Ci, _own_inv(C))
 
 
 def _quad(P, y):
@@ -469,6 +549,14 @@ def _data(F, cfg, V):
     return X
 
 
+def _bias(F, cfg):
+    return cfg["bias"] if "bias" in cfg else F.choice("bias", [0, 1])
+
+
+def _sparse(F, cfg):
+    return cfg["sparse"] if "sparse" in cfg else F.bool("sparse")
+
+
 def _adjacent(V, edges):
     A = np.zeros((V, V), dtype=bool)
     for (u, v) in edges:
@@ -482,7 +570,7 @@ def precision(F, ob, cfg):
     from menpo.model.gmrf import GMRFVectorModel
 
     graph, V, edges = _mk_graph(cfg["graph"])
-    k, mode, bias = cfg.get("k", 1), cfg["mode"], cfg["bias"]
+    k, mode, bias = cfg.get("k", 1), cfg["mode"], _bias(F, cfg)
     N = V * k
     X = _data(F, cfg, V)
     Po, _, mean = _oracle(F, X, V, k, edges, mode, bias)
@@ -518,6 +606,40 @@ def precision(F, ob, cfg):
     _bsr_validated(F, ob)
 
 
+def increment(F, ob, cfg):
+    """incremental=True: after increment(B) a model trained on A is the model of A and B together (precision of both
+    storages = oracle on all samples, mean = mean of all samples); a non-incremental model refuses"""
+    from menpo.model.gmrf import GMRFVectorModel
+
+    graph, V, edges = _mk_graph(cfg["graph"])
+    k, mode, bias = cfg.get("k", 1), cfg["mode"], _bias(F, cfg)
+    N = V * k
+    n0, n1 = cfg["n"], cfg["n_new"]
+    X = _data(F, dict(cfg, n=n0 + n1), V)
+    A, B = X[:n0].copy(), X[n0:].copy()
+    # both the initial and the final block covariances are well conditioned
+    _oracle(F, A, V, k, edges, mode, bias)
+    Po, _, mean = _oracle(F, X, V, k, edges, mode, bias)
+    _install(F, cfg)
+    for tag, sparse in (("dense", False), ("sparse", True)):
+        m = GMRFVectorModel(A.copy(), graph, mode=mode, sparse=sparse, bias=bias, dtype=np.float64, incremental=True)
+        as_list = cfg.get("as_list", False)
+        m.increment([B[i].copy() for i in range(n1)] if as_list else B.copy())
+        ob.true(tag + ".n_samples", m.n_samples == n0 + n1)
+        ob.true(tag + ".storage", _is_sparse(m.precision) == sparse and tuple(m.precision.shape) == (N, N))
+        P = _dense_of(m.precision)
+        ob.eq(tag + ".precision=oracle_on_all_samples", P, Po)
+        ob.eq(tag + ".mean=mean_of_all_samples", m.mean(), mean)
+        one = GMRFVectorModel(X.copy(), graph, mode=mode, sparse=sparse, bias=bias, dtype=np.float64)
+        ob.eq(tag + ".precision=one_shot_model", P, _dense_of(one.precision))
+        try:
+            one.increment(B.copy())
+            ob.fail(tag + ".non_incremental_refuses", "increment() on incremental=False did not raise")
+        except ValueError:
+            ob.true(tag + ".non_incremental_refuses", True)
+    _bsr_validated(F, ob)
+
+
 def _queries(F, N, names=("q", "r")):
     return [F.reals(nm, (N,), -4, 4) for nm in names]
 
@@ -527,10 +649,12 @@ def mahalanobis(F, ob, cfg):
     from menpo.model.gmrf import GMRFVectorModel
 
     graph, V, edges = _mk_graph(cfg["graph"])
-    k, mode, bias = cfg.get("k", 1), cfg["mode"], cfg["bias"]
+    k, mode, bias = cfg.get("k", 1), cfg["mode"], _bias(F, cfg)
     N = V * k
     X = _data(F, cfg, V)
-    Po, _, mean = _oracle(F, X, V, k, edges, mode, bias)
+    rc = _use_recip(F, cfg)
+    Po, parts, mean = _oracle(F, X, V, k, edges, mode, bias, recip=rc)
+    _recip_is_inverse(ob, rc, parts)
     q, r = _queries(F, N)
     _install(F, cfg)
     md = GMRFVectorModel(X, graph, mode=mode, sparse=False, bias=bias, dtype=np.float64)
@@ -559,18 +683,36 @@ def mahalanobis(F, ob, cfg):
         ob.same(tag + ".query_untouched", np.hstack([q, r]), np.hstack([q0, r0]))
     ob.eq("sparse=dense.single", ms.mahalanobis_distance(q), md.mahalanobis_distance(q))
     ob.eq("sparse=dense.batch", ms.mahalanobis_distance(np.vstack([r, q])), md.mahalanobis_distance(np.vstack([r, q])))
-    # square-root variant last: the engine records d >= 0 as a side condition of sqrt from here on
-    for tag, m in (("dense", md), ("sparse", ms)):
-        d = m.mahalanobis_distance(q)
-        s = m.mahalanobis_distance(q, square_root=True)
-        ob.eq(tag + ".sqrt.squares_back", s * s, d)
-        ob.true(tag + ".sqrt.nonneg", s >= 0)
-        S = m.mahalanobis_distance(np.vstack([q, r]), square_root=True)
-        ob.true(tag + ".sqrt.batch.shape", np.shape(S) == (2,))
-        if np.shape(S) == (2,):
-            ob.eq(tag + ".sqrt.batch[0]", S[0], s)
-            ob.eq(tag + ".sqrt.batch[1].squares_back", S[1] * S[1], m.mahalanobis_distance(r))
     _bsr_validated(F, ob)
+
+
+def mahalanobis_sqrt(F, ob, cfg):
+    """square_root=True on exact-constant training data and symbolic queries: >= 0, squares back, batched = singles.
+    (The engine records d >= 0 as a side condition of the square root: non-negativity of d itself is `psd`'s job.)"""
+    from menpo.model.gmrf import GMRFVectorModel
+
+    graph, V, edges = _mk_graph(cfg["graph"])
+    k, mode, bias = cfg.get("k", 1), cfg["mode"], _bias(F, cfg)
+    N = V * k
+    sparse = _sparse(F, cfg)
+    X = _data(F, dict(cfg, sym_rows=0), V)
+    q, r = _queries(F, N)
+    _install(F, cfg)
+    m = GMRFVectorModel(X, graph, mode=mode, sparse=sparse, bias=bias, dtype=np.float64)
+    d = m.mahalanobis_distance(q)
+    s = m.mahalanobis_distance(q, square_root=True)
+    ob.true("sqrt.scalar", np.ndim(s) == 0)
+    ob.eq("sqrt.squares_back", s * s, d)
+    ob.le("sqrt.nonneg", 0.0, s)
+    S = m.mahalanobis_distance(np.vstack([q, r]), square_root=True)
+    ob.true("sqrt.batch.shape", np.shape(S) == (2,))
+    if np.shape(S) == (2,):
+        ob.eq("sqrt.batch[0]=single", S[0], s)
+        ob.eq("sqrt.batch[1].squares_back", S[1] * S[1], m.mahalanobis_distance(r))
+        ob.le("sqrt.batch[1].nonneg", 0.0, S[1])
+    raw = m.mahalanobis_distance(q, subtract_mean=False, square_root=True)
+    ob.eq("sqrt.raw.squares_back", raw * raw, m.mahalanobis_distance(q, subtract_mean=False))
+    _bsr_validated(F, ob, sparse)
 
 
 def psd(F, ob, cfg):
@@ -578,15 +720,20 @@ def psd(F, ob, cfg):
     from menpo.model.gmrf import GMRFVectorModel
 
     graph, V, edges = _mk_graph(cfg["graph"])
-    k, mode, bias = cfg.get("k", 1), cfg["mode"], cfg["bias"]
+    k, mode, bias = cfg.get("k", 1), cfg["mode"], _bias(F, cfg)
     N = V * k
+    sparse = _sparse(F, cfg)
     X = _data(F, cfg, V)
-    _, parts, mean = _oracle(F, X, V, k, edges, mode, bias)
-    (q,) = _queries(F, N, ("q",))
+    rc = _use_recip(F, cfg) if cfg["route"] == "split" else None
+    _, parts, mean = _oracle(F, X, V, k, edges, mode, bias, recip=rc)
+    # two queries: q anywhere (raw form x^T P x), and c = sample mean + z for an arbitrary offset z (distance d(c)):
+    # every query point is such a c, and the centred vector c - mean is then the plain term z
+    (q, z) = _queries(F, N, ("q", "z"))
+    c = mean + z
     _install(F, cfg)
-    m = GMRFVectorModel(X, graph, mode=mode, sparse=cfg["sparse"], bias=bias, dtype=np.float64)
+    m = GMRFVectorModel(X, graph, mode=mode, sparse=sparse, bias=bias, dtype=np.float64)
     raw = m.mahalanobis_distance(q, subtract_mean=False)
-    d = m.mahalanobis_distance(q)
+    d = m.mahalanobis_distance(c)
     if cfg["route"] == "direct":
         ob.le("xPx>=0", 0.0, raw)
         ob.le("d(x)>=0", 0.0, d)
@@ -595,17 +742,20 @@ def psd(F, ob, cfg):
         terms_raw, terms_d = [], []
         for e, (rows, Ci, C) in enumerate(parts):
             y = _apply_sel(rows, q[None, :])[0]
-            yc = _apply_sel(rows, (q - mean)[None, :])[0]
+            yc = _apply_sel(rows, z[None, :])[0]
             terms_raw.append(_quad(Ci, y))
             terms_d.append(_quad(Ci, yc))
-            ob.le("block[%d].form>=0" % e, 0.0, terms_raw[-1])
-            ob.le("block[%d].centred_form>=0" % e, 0.0, terms_d[-1])
+            # non-negativity is stated on the plain fraction adj(C)/det(C) (no reciprocal variable involved)
+            Cn = _own_inv(C) if rc is not None else Ci
+            ob.le("block[%d].form>=0" % e, 0.0, _quad(Cn, y))
+            ob.le("block[%d].centred_form>=0" % e, 0.0, _quad(Cn, yc))
+        _recip_is_inverse(ob, rc, parts)
         ob.eq("xPx=sum_of_block_forms", raw, sum(terms_raw))
         ob.eq("d(x)=sum_of_block_forms", d, sum(terms_d))
         if not F.sym:
             ob.le("xPx>=0", 0.0, raw)
             ob.le("d(x)>=0", 0.0, d)
-    _bsr_validated(F, ob)
+    _bsr_validated(F, ob, sparse)
 
 
 def vectorizable(F, ob, cfg):
@@ -614,10 +764,12 @@ def vectorizable(F, ob, cfg):
     from menpo.shape import PointCloud
 
     graph, V, edges = _mk_graph(cfg["graph"])
-    mode, bias, n, k = cfg["mode"], cfg["bias"], cfg["n"], 2
+    mode, bias, n, k = cfg["mode"], _bias(F, cfg), cfg["n"], 2
     N = V * k
     X = _data(F, dict(cfg, k=2), V)
-    Po, _, mean = _oracle(F, X, V, k, edges, mode, bias)
+    rc = _use_recip(F, cfg)
+    Po, parts, mean = _oracle(F, X, V, k, edges, mode, bias, recip=rc)
+    _recip_is_inverse(ob, rc, parts)
     (q, r) = _queries(F, N)
     _install(F, cfg)
     clouds = [PointCloud(X[i].reshape(V, 2).copy(), copy=False) for i in range(n)]
@@ -668,72 +820,84 @@ def _truncated_pinv(C, nc):
 
 
 def dtype(F, ob, cfg):
-    """float32 / float64 storage and rank truncation on concrete data through the real LAPACK and scipy"""
+    """float32 / float64 storage and rank truncation on concrete data through the real LAPACK and scipy
+    (loops over features per vertex, n_components, bias and data sets inside one instance)"""
+    graph, V, edges = _mk_graph(cfg["graph"])
+    mode = cfg["mode"]
+    _install(F, dict(cfg, real_bsr=True))
+    for k in cfg["ks"]:
+        blockdim = k if (not edges or mode == "subtraction") else 2 * k
+        for nc in [None] + sorted(set([1, 2, blockdim, blockdim + 2])):
+            if "only_ncomp" in cfg and nc != cfg["only_ncomp"]:
+                continue
+            for seed in range(cfg["seeds"]):
+                _dtype_case(F, ob, cfg, graph, V, edges, k, mode, (k + seed + (nc or 0)) % 2, nc, seed)
+
+
+def _dtype_case(F, ob, cfg, graph, V, edges, k, mode, bias, nc, seed):
     from menpo.model.gmrf import GMRFVectorModel
 
-    graph, V, edges = _mk_graph(cfg["graph"])
-    k, mode, bias, nc = cfg["k"], cfg["mode"], cfg["bias"], cfg["ncomp"]
     dt = np.float32 if cfg["dtype"] == "float32" else np.float64
     N = V * k
-    cfg = dict(cfg, real_bsr=True)
-    _install(F, cfg)
     tol = 2e-4 if dt is np.float32 else 1e-8
     n = 8
     A = _adjacent(V, edges)
-    for seed in range(6):
-        X = _concrete_data(seed, n, N)
-        # oracle on plain floats (the own-covariance code above, numpy floats)
-        Po = np.zeros((N, N))
-        for rows in _selectors(V, k, edges, mode):
-            C = _own_cov(_apply_sel(rows, X), bias)
-            Ci = _truncated_pinv(C, nc)
-            E = np.zeros((len(rows), N))
-            for a, rw in enumerate(rows):
-                for c, f in rw.items():
-                    E[a, c] = f
-            Po += E.T.dot(Ci).dot(E)
-        scale = float(np.abs(Po).max())
-        X0 = X.copy()
-        md = GMRFVectorModel(X, graph, mode=mode, sparse=False, bias=bias, dtype=dt, n_components=nc)
-        ms = GMRFVectorModel(X, graph, mode=mode, sparse=True, bias=bias, dtype=dt, n_components=nc)
-        t = "s%d." % seed
-        ob.true(t + "dense.dtype", isinstance(md.precision, np.ndarray) and md.precision.dtype == dt)
-        ob.true(t + "sparse.dtype", _is_sparse(ms.precision) and ms.precision.dtype == dt)
-        Pd = np.asarray(md.precision, dtype=float)
-        Ps = np.asarray(ms.precision.todense(), dtype=float)
-        ob.true(t + "sparse=dense", bool(np.abs(Ps - Pd).max() <= tol * scale))
-        ob.true(t + "dense=oracle", bool(np.abs(Pd - Po).max() <= tol * scale * 50))
-        ob.true(t + "sparse=oracle", bool(np.abs(Ps - Po).max() <= tol * scale * 50))
-        ob.true(t + "dense.symmetric", bool(np.abs(Pd - Pd.T).max() <= tol * scale))
-        ob.true(t + "sparse.symmetric", bool(np.abs(Ps - Ps.T).max() <= tol * scale))
-        ok = True
-        for u in range(V):
-            for v in range(V):
-                if u != v and not A[u, v]:
-                    ok = ok and not Pd[np.ix_(_blk(u, k), _blk(v, k))].any() and not Ps[np.ix_(_blk(u, k), _blk(v, k))].any()
-        ob.true(t + "uncoupled_blocks_zero", bool(ok))
-        for tag, P in (("dense", Pd), ("sparse", Ps)):
-            w = np.linalg.eigvalsh((P + P.T) / 2)
-            ob.true(t + tag + ".psd", bool(w.min() >= -tol * scale * 10))
-        ob.true(t + "mean", bool(np.allclose(md.mean(), X0.mean(axis=0), rtol=0, atol=1e-12)) and
-                bool(np.allclose(ms.mean(), X0.mean(axis=0), rtol=0, atol=1e-12)))
-        rs = np.random.RandomState(seed)
-        Q = np.round(rs.uniform(-3, 3, size=(3, N)) * 32) / 32
-        mu = X0.mean(axis=0)
-        want = np.array([(x - mu).dot(Po).dot(x - mu) for x in Q])
-        dscale = max(1.0, float(np.abs(want).max()))
-        for tag, m in (("dense", md), ("sparse", ms)):
-            B = np.asarray(m.mahalanobis_distance(Q), dtype=float)
-            singles = np.array([float(m.mahalanobis_distance(x)) for x in Q])
-            ob.true(t + tag + ".maha.batch=singles", B.shape == (3,) and bool(np.abs(B - singles).max() <= tol * dscale))
-            ob.true(t + tag + ".maha=oracle", bool(np.abs(singles - want).max() <= tol * dscale * 100))
-            ob.true(t + tag + ".maha.nonneg", bool(singles.min() >= -tol * dscale))
-            ob.true(t + tag + ".maha.at_mean=0", bool(abs(float(m.mahalanobis_distance(m.mean()))) <= tol * dscale))
-            sq = np.asarray(m.mahalanobis_distance(Q, square_root=True), dtype=float)
-            ob.true(t + tag + ".maha.sqrt", bool(np.abs(sq * sq - B).max() <= tol * dscale * 10))
-        ob.true(t + "maha.sparse=dense", bool(np.abs(np.asarray(ms.mahalanobis_distance(Q)) - np.asarray(md.mahalanobis_distance(Q))).max()
-                                              <= tol * dscale * 10))
-        ob.true(t + "data_untouched", bool(np.array_equal(X, X0)))
+    X = _concrete_data(seed, n, N)
+    # oracle on plain floats: own covariance, eigh-based (truncated) pseudo-inverse, own scatter
+    Po = np.zeros((N, N))
+    for rows in _selectors(V, k, edges, mode):
+        C = _own_cov(_apply_sel(rows, X), bias)
+        Ci = _truncated_pinv(C, nc)
+        E = np.zeros((len(rows), N))
+        for a, rw in enumerate(rows):
+            for c, f in rw.items():
+                E[a, c] = f
+        Po += E.T.dot(Ci).dot(E)
+    scale = float(np.abs(Po).max())
+    X0 = X.copy()
+    md = GMRFVectorModel(X, graph, mode=mode, sparse=False, bias=bias, dtype=dt, n_components=nc)
+    ms = GMRFVectorModel(X, graph, mode=mode, sparse=True, bias=bias, dtype=dt, n_components=nc)
+    t = "k%d.nc%s.b%d.s%d." % (k, nc, bias, seed)
+    # (under the np proxy a float64 request is served by an object array of floats)
+    ob.true(t + "dense.dtype", isinstance(md.precision, np.ndarray) and
+            (md.precision.dtype == dt or (F.sym and dt is np.float64 and md.precision.dtype == object)))
+    ob.true(t + "sparse.dtype", _is_sparse(ms.precision) and ms.precision.dtype == dt)
+    Pd = np.asarray(md.precision, dtype=float)
+    Ps = np.asarray(ms.precision.todense(), dtype=float)
+    ob.true(t + "sparse=dense", bool(np.abs(Ps - Pd).max() <= tol * scale))
+    ob.true(t + "dense=oracle", bool(np.abs(Pd - Po).max() <= tol * scale * 50))
+    ob.true(t + "sparse=oracle", bool(np.abs(Ps - Po).max() <= tol * scale * 50))
+    ob.true(t + "dense.symmetric", bool(np.abs(Pd - Pd.T).max() <= tol * scale))
+    ob.true(t + "sparse.symmetric", bool(np.abs(Ps - Ps.T).max() <= tol * scale))
+    ok = True
+    for u in range(V):
+        for v in range(V):
+            if u != v and not A[u, v]:
+                ok = ok and not Pd[np.ix_(_blk(u, k), _blk(v, k))].any() and not Ps[np.ix_(_blk(u, k), _blk(v, k))].any()
+    ob.true(t + "uncoupled_blocks_zero", bool(ok))
+    for tag, P in (("dense", Pd), ("sparse", Ps)):
+        w = np.linalg.eigvalsh((P + P.T) / 2)
+        ob.true(t + tag + ".psd", bool(w.min() >= -tol * scale * 10))
+    mu = X0.mean(axis=0)
+    ob.true(t + "mean", bool(np.allclose(np.asarray(md.mean(), dtype=float), mu, rtol=0, atol=1e-12)) and
+            bool(np.allclose(np.asarray(ms.mean(), dtype=float), mu, rtol=0, atol=1e-12)))
+    rs = np.random.RandomState(seed)
+    Q = np.round(rs.uniform(-3, 3, size=(3, N)) * 32) / 32
+    want = np.array([(x - mu).dot(Po).dot(x - mu) for x in Q])
+    dscale = max(1.0, float(np.abs(want).max()))
+    got = {}
+    for tag, m in (("dense", md), ("sparse", ms)):
+        B = np.asarray(m.mahalanobis_distance(Q), dtype=float)
+        got[tag] = B
+        singles = np.array([float(m.mahalanobis_distance(x)) for x in Q])
+        ob.true(t + tag + ".maha.batch=singles", B.shape == (3,) and bool(np.abs(B - singles).max() <= tol * dscale))
+        ob.true(t + tag + ".maha=oracle", bool(np.abs(singles - want).max() <= tol * dscale * 100))
+        ob.true(t + tag + ".maha.nonneg", bool(singles.min() >= -tol * dscale))
+        ob.true(t + tag + ".maha.at_mean=0", bool(abs(float(m.mahalanobis_distance(m.mean()))) <= tol * dscale))
+        sq = np.asarray(m.mahalanobis_distance(Q, square_root=True), dtype=float)
+        ob.true(t + tag + ".maha.sqrt", bool(np.abs(sq * sq - B).max() <= tol * dscale * 10))
+    ob.true(t + "maha.sparse=dense", bool(np.abs(got["sparse"] - got["dense"]).max() <= tol * dscale * 10))
+    ob.true(t + "data_untouched", bool(np.array_equal(X, X0)))
 
 
 def bsr_model(F, ob, cfg):
